@@ -117,6 +117,15 @@ impl<T: PayloadEncode> WireEncode for ScionPacket<T> {
     fn wire_valid(&self) -> Result<(), InvalidStructureError> {
         self.header.wire_valid()?;
         self.payload.wire_valid()?;
+
+        // PayloadLen (and the UDP length) are 16 bit fields: a larger payload would be encoded
+        // with a wrapped length field instead of being rejected.
+        if self.payload.required_size(self.header.required_size()) > u16::MAX as usize {
+            return Err(InvalidStructureError::from(
+                "payload size exceeds maximum encodeable value of 65535 bytes",
+            ));
+        }
+
         Ok(())
     }
 
